@@ -6,6 +6,7 @@ package live
 import (
 	"fmt"
 	"os"
+	"strings"
 	"time"
 	"verifharness/internal/pbt"
 
@@ -27,7 +28,15 @@ func RunReads(ti *terminfo.Terminfo, charset string, reads [][]byte, deferPoll b
 // RunReadsLocale is RunReads with the full locale name (language[.codeset][@modifier])
 // that the screen finds in LC_ALL.
 func RunReadsLocale(ti *terminfo.Terminfo, locale string, reads [][]byte, deferPoll bool, want int) ([]inref.Ev, error) {
-	os.Setenv("LC_ALL", locale)
+	if rest, ok := strings.CutPrefix(locale, "LANG:"); ok {
+		// LC_ALL present but empty (POSIX: as if unset), the charset comes from LANG
+		os.Setenv("LC_ALL", "")
+		os.Unsetenv("LC_CTYPE")
+		os.Setenv("LANG", rest)
+		defer os.Unsetenv("LANG")
+	} else {
+		os.Setenv("LC_ALL", locale)
+	}
 	cp := *ti
 	cp.PadChar = ""
 	tty := faketty.New(100, 100)
